@@ -6,7 +6,9 @@ Inductive case :=
 | WriteToCase (pmtu : Z) (m : mode) (n : Z) (dgrams recv : list Z) (intact : bool) (ret : Z)
 | WriteCase (pmtu : Z) (m : mode) (n : Z) (dgrams recv : list Z) (intact : bool) (ret : Z)
 | HsCase (pmtu : Z) (m : mode) (cd sd : list Z) (ok : bool)
-| ExtraCase (extra : Z).
+| ExtraCase (extra : Z)
+(* Write / Read with read buffers smaller than a record: the bytes read are the bytes written, complete and in order *)
+| ShortReadCase (pmtu bufsz total : Z) (intact : bool).
 
 Fixpoint zl_eqb (a b : list Z) : bool :=
   match a, b with
@@ -25,6 +27,7 @@ Definition mismatch (c : case) : bool :=
             zl_eqb rv (filter (fun c => 0 <? c) (write_chunks n (max_payload pmtu m))))
   | HsCase _ _ _ _ ok => negb ok
   | ExtraCase _ => true
+  | ShortReadCase _ _ _ intact => negb intact
   end.
 
 (* property level, independent of max_payload: a payload that CAN travel in one record within
@@ -51,6 +54,7 @@ Definition spec_code (c : case) : N :=
       else if existsb (fun d => eff_pmtu pmtu <? d) (cd ++ sd) then 6%N   (* flight / handshake datagram above the path MTU (K3) *)
       else 0%N
   | ExtraCase _ => 8%N
+  | ShortReadCase _ _ _ intact => if intact then 0%N else 5%N
   end.
 
 Definition mismatches (cs : list (N * case)) : list N :=
